@@ -161,7 +161,6 @@ def run(ctx):
 
 
 def replay(ctx, path):
-    obj = json.load(open(path))
-    print("replay of C08 cases re-runs the whole check on the recorded base; use ./check C08")
-    print(json.dumps(obj["verdict"]))
-    return 0
+    import sys
+    from ..core import generic_replay
+    return generic_replay(ctx, sys.modules[__name__], path)
